@@ -144,6 +144,8 @@ def build(scope, kind, name, read, dotted_use):
     in_func = sc in ('function', 'method', 'lambda', 'nested')
     if kclass == 'lamparam':
         in_func = True      # the binding is a parameter of a lambda wherever the lambda is written
+        if sc == 'class':
+            never_read = False      # a lambda written directly in a class body counts as a method: parameters exempt
     if kclass == 'global':
         never_read = False  # not a local of the function: nothing to report
     if never_read and not under:
